@@ -30,6 +30,8 @@ def cells(tier):
         out.append(cell(f"s{size} A3|cgroupA,B2|M2/1", sc, MON))
         sc = scen(pool(size), [[M("M", 3, 2)], [A("A", 2)], [CALL, A("B", 2)]], outcomes=["ret"])
         out.append(cell(f"s{size} M3/2|A2|call,B2", sc, MON))
+    sc = scen([pool(1), pool(2)], [[A("A", 1), ["gac"]], [A("B", 1, p=1)], [["new_pool"], A("C", 1, p=2)]], outcomes=["ret"])
+    out.append(cell("pools a,b; close a; new pool c; tasks in b and c", sc, MON))
     if not q:
         for size in [1, 2, "inf"]:
             sc = scen([pool(size), pool(size)], [[A("A", 2)], [M("M", 3, 2, p=1)], [cancel(rid("A", 1))], [FLUSH, A("C", 1)], [["flush", {"p": 1}]]],
